@@ -1,3 +1,153 @@
 import Driver.Common
--- stub driver for C01 (replaced when the property's model is built)
-def main (args : List String) : IO UInt32 := Driver.main' (fun _ => "bad-op") (fun _ _ => "fail bad-op") args
+import GilVerif.Model.C01
+import GilVerif.Model.C02
+open Driver GilVerif.Geom GilVerif.Model.C01 GilVerif.Gen.C01
+
+/-- granule of the allocator address for a kind (alignment of the channel type) -/
+def granOf (k : String) : Int :=
+  match k with
+  | "rgb16" | "p565" | "pl16c" => 2
+  | "rgb32f" => 4
+  | _ => 1
+
+def orgOf (k : String) : Option Org :=
+  let inter (p : Int) : Option Org := some ⟨1, p, false, 1, [], 0⟩
+  let bit (b f : Int) (ch : List (Int × Int)) : Option Org := some ⟨8, b, false, ch.length, ch, f⟩
+  match k with
+  | "g8" => inter 1 | "rgb8" => inter 3 | "bgr8" => inter 3 | "rgba8" => inter 4 | "rgb16" => inter 6 | "dev5" => inter 5
+  | "rgb32f" => inter 12 | "p565" => inter 2
+  | "pl8" => some ⟨1, 1, true, 3, [], 0⟩ | "pl16c" => some ⟨1, 2, true, 4, [], 0⟩
+  | "b1" => bit 1 1 [(0, 1)] | "b2" => bit 2 2 [(0, 2)] | "b4" => bit 4 2 [(0, 4)]
+  | "b6" => bit 6 2 [(0, 2), (2, 2), (4, 2)] | "b12" => bit 12 4 [(0, 4), (4, 4), (8, 4)]
+  | _ => none
+
+def parseXf (tok : String) : Option Xform :=
+  let c := (tok.take 1).toString
+  let args := ints (((tok.drop 1).toString.splitOn ",").filter (· ≠ ""))
+  match c, args with
+  | "U", some [] => some .flipUD | "L", some [] => some .flipLR | "T", some [] => some .transpose
+  | "R", some [] => some .rot90cw | "C", some [] => some .rot90ccw | "I", some [] => some .rot180
+  | "S", some [sx, sy] => some (.subsample sx sy)
+  | "B", some [x0, y0, w, h] => some (.sub x0 y0 w h)
+  | _, _ => none
+def parseXfs (s : String) : Option (List Xform) := if s = "-" then some [] else (s.splitOn "/").mapM parseXf
+
+def K : Int := 1720320
+/-- address the guard allocator returns for a request of `n` bytes (any number congruent to the real
+    address modulo every alignment in use) -/
+def allocAddr (mode R n gran : Int) : Int := if mode = 0 then R else K - (n + gran - 1) / gran * gran
+
+def range' (lo hi : Int) : List Int := (List.range (hi - lo + 1).toNat).map (fun i => lo + Int.ofNat i)
+
+/-- smallest pixel address / largest pixel end (memory units, all planes) over the pixels of `v` -/
+def extent (o : Org) (plane : Int) (v : View) : Int × Int :=
+  let addrs := (range' 0 (v.h - 1)).flatMap fun y => (range' 0 (v.w - 1)).map fun x => v.addr x y
+  match addrs with
+  | [] => (0, 0)
+  | a :: rest =>
+    let lo := rest.foldl min a
+    let hi := rest.foldl max a
+    (lo, hi + o.mstep + (if o.planar then (o.nch - 1) * plane else 0))
+
+/-- state after the constructor sequence: bytes of the storage in use, allocations made, allocator address, view geometry -/
+structure St where
+  n : Int
+  nalloc : Int
+  m : Int
+  w : Int
+  h : Int
+  a : Int
+
+/-- `allocate_`: nothing is allocated for 0 bytes, and then the view stays default-constructed (0 x 0) -/
+def fresh (o : Org) (gran mode R w h a : Int) (prev : Int) : St :=
+  let n := allocBytes o w h a
+  if n = 0 then { n := 0, nalloc := prev, m := 0, w := 0, h := 0, a := a } else
+  { n := n, nalloc := prev + 1, m := allocAddr mode R n gran, w := w, h := h, a := a }
+
+def runCtor (o : Org) (gran mode R : Int) (ctor : String) (W H A W2 H2 A2 : Int) : Option St :=
+  match ctor with
+  | "d" | "f" => some (fresh o gran mode R W H A 0)
+  | "c" =>      -- copy constructor: dimensions and alignment of the source *as it is* (0 x 0 if it has no storage)
+    let s1 := fresh o gran mode R W H A 0; some (fresh o gran mode R s1.w s1.h s1.a s1.nalloc)
+  | "a" =>
+    let s1 := fresh o gran mode R W H A 0
+    let s2 := fresh o gran mode R W2 H2 A2 s1.nalloc
+    if s1.w = s2.w ∧ s1.h = s2.h then some s2                       -- copy_pixels into the existing storage
+    else some (fresh o gran mode R s1.w s1.h s1.a s2.nalloc)         -- image tmp(img); swap(tmp)
+  | "r" =>
+    let s1 := fresh o gran mode R W H A 0
+    if s1.w = W2 ∧ s1.h = H2 ∧ A = A2 then some s1
+    else if s1.n ≥ allocBytes o W2 H2 A2 then some { s1 with w := W2, h := H2, a := A2 }   -- create_view over the old storage
+    else some (fresh o gran mode R W2 H2 A2 s1.nalloc)
+  | _ => none
+
+def showSt (o : Org) (s : St) (ts : List Xform) : String :=
+  if s.n = 0 then
+    let dv := GilVerif.Model.C02.applyMemAll ts { base := 0, xs := o.mstep, ys := 0, w := s.w, h := s.h }
+    showInts [0, s.nalloc, 0, 0, 0, s.w, s.h, 0, 0] ++ " | " ++ showInts [dv.w, dv.h, 0, 0] ++ " | ok"
+  else
+    let v := imageView o s.w s.h s.a s.m
+    let plane := v.ys * s.h
+    let e := extent o plane v
+    let dv := GilVerif.Model.C02.applyMemAll ts v
+    let de := extent o plane dv
+    let fmod := if s.a > 0 then (s.m + originOff s.m s.a) % s.a else 0
+    showInts [s.n, s.nalloc, v.base, fmod, v.ys, s.w, s.h, e.1, e.2] ++ " | " ++ showInts [dv.w, dv.h, de.1, de.2] ++ " | ok"
+
+def model (line : String) : String :=
+  match words line with
+  | ["img", k, W, H, A, mode, R, ctor, W2, H2, A2, xf] =>
+    match orgOf k, ints [W, H, A, mode, R, W2, H2, A2], parseXfs xf with
+    | some o, some [W, H, A, mode, R, W2, H2, A2], some ts =>
+      match runCtor o (granOf k) mode R ctor W H A W2 H2 A2 with
+      | some s => showSt o s ts
+      | none => "bad-op"
+    | _, _, _ => "bad-op"
+  | ["buf", k, W, H, PAD, _mode] =>
+    match orgOf k, ints [W, H, PAD] with
+    | some o, some [W, H, PAD] =>
+      let row := W * o.mstep + PAD
+      let e := if row * H = 0 then (0, 0) else extent o 0 { base := 0, xs := o.mstep, ys := row, w := W, h := H }
+      showInts [row, e.1, e.2] ++ " | ok"
+    | _, _ => "bad-op"
+  | _ => "bad-op"
+
+/-! ### judge: the property on the implementation's observation -/
+
+def splitGroups (ws : List String) : List (List String) :=
+  let rec go (acc : List String) (rest : List String) : List (List String) :=
+    match rest with
+    | [] => [acc.reverse]
+    | "|" :: r => acc.reverse :: go [] r
+    | x :: r => go (x :: acc) r
+  go [] ws
+
+def fail (s : String) : String := "fail " ++ s
+
+/-- `[lo, hi)` in memory units lies inside `n` bytes -/
+def inside (o : Org) (n lo hi : Int) : Bool := 0 ≤ lo && (hi + o.b2m - 1) / o.b2m ≤ n
+
+def judge (op obs : String) : String :=
+  let ws := words obs
+  if ws.any (fun w => w.startsWith "segv:") then fail ("an access left the allocation (guard page hit): " ++ (ws.getLast?.getD "")) else
+  match words op with
+  | "img" :: k :: _ =>
+    match orgOf k, (splitGroups ws) with
+    | some o, [g1, g2, ["ok"]] =>
+      match ints g1, ints g2 with
+      | some [n, _, _, _, _, _, _, lo, hi], some [_, _, dlo, dhi] =>
+        if !(inside o n lo hi) then fail "a pixel of the image lies outside the buffer obtained from the allocator"
+        else if !(inside o n dlo dhi) then fail "a pixel of the derived view lies outside the buffer obtained from the allocator"
+        else "ok"
+      | _, _ => fail ("not-a-value:" ++ obs.take 40)
+    | _, _ => fail ("not-a-value:" ++ obs.take 40)
+  | ["buf", _, _, H, _, _] =>
+    match H.toInt?, splitGroups ws with
+    | some H, [g1, ["ok"]] =>
+      match ints g1 with
+      | some [row, lo, hi] => if 0 ≤ lo ∧ hi ≤ H * row then "ok" else fail "a pixel lies outside the caller's buffer of height x row-bytes"
+      | _ => fail ("not-a-value:" ++ obs.take 40)
+    | _, _ => fail ("not-a-value:" ++ obs.take 40)
+  | _ => fail "bad-op"
+
+def main (args : List String) : IO UInt32 := Driver.main' model judge args
